@@ -207,6 +207,29 @@ def run (f : Nat → Packed → Packed) : St → List Nat → St
 
 end Legacy
 
+namespace Window
+
+/-- The OTHER place where `prepare_inner` opens the packed-refs transaction (no packed-refs
+update planned): `packed_refs_lock_path().is_file()` is checked first; if nobody holds the lock at
+that moment the buffer is read (`assure_packed_refs_uptodate`) and only then locked
+(`buffer_into_transaction`); if somebody does, `packed_transaction` is used (lock first, then
+read). Check + read are taken as ONE atomic step here (coarser than reality, the window is only
+larger there). A writer that saw the lock held is modelled as waiting in `.locked`-order, i.e. it
+re-enters through `.start` of the lock-first program once the lock is free. -/
+def step (f : Nat → Packed → Packed) (s : St) (w : Nat) : St :=
+  match s.pc w with
+  | .start => if s.lock.isNone then { s with pc := upd s.pc w (.early s.file) } else s
+  | .early snap => if s.lock.isNone then { s with lock := some w, pc := upd s.pc w (.read snap) } else s
+  | .read snap => { s with file := f w snap, lock := none, pc := upd s.pc w .done, log := s.log ++ [w] }
+  | .locked => s
+  | .done => s
+
+def run (f : Nat → Packed → Packed) : St → List Nat → St
+  | s, [] => s
+  | s, w :: ws => run f (step f s w) ws
+
+end Window
+
 /-- writer `w` adds the reference named by the byte `w` with object `w` -/
 def addOwn (w : Nat) (p : Packed) : Packed := p ++ [([w.toUInt8], w)]
 
